@@ -3,14 +3,14 @@ CONSTANTS
   GScalars <- ScalarsSmall
   MaxDepth = 1
   MaxNodes = 1
-  Bases <- BasesFull
-  MaxFaults = 2
+  Bases <- BasesSmall
+  MaxFaults = 1
   RefNames <- RefNamesDef
-  DropRule = ""
+  DropRule = "valueOneHash"
   Mode = "faults"
 SPECIFICATION Spec
-INVARIANT Total
-INVARIANT TypingSound
+
+
 INVARIANT BaseClean
 INVARIANT FaultExact
 INVARIANT FaultCode
